@@ -1178,6 +1178,6 @@ META = dict(
         "headers are retained; objects are timed by the un-reseated timing map built at 0 ms from position-sorted "
         "changes and the tempo list comes from the reseated map; the line slicing and the slot-position formula have "
         "the format's shape (rational-function canonical form); and an element-wise provenance analysis shows which "
-        "buffer field reaches which constructor keyword (column/sample/head/tail not swapped)."),
+        "buffer field reaches which constructor keyword (column/sample/head/tail not swapped). The measure-length channel (02) is read as value * K, the inverse of what the writer emits (R11); lines reach the note reader in file order within a measure and channel (no caller-side sort by content, R6)."),
     not_decided="Fraction arithmetic and the ms integration of the timing engine (C10), channel 02 (outside the property's domain)",
 )
